@@ -35,7 +35,7 @@ def main():
     try:
         for c in checks:
             t0 = time.time()
-            rc, out = sh("./check %s%s" % (c, extra), cwd=V)
+            rc, out = sh("VERIF_SCRATCH_OUT=/tmp/vs_out_%s ./check %s%s" % (seed, c, extra), cwd=V)
             viol = [l for l in out.splitlines() if l.startswith("VIOLATION")]
             first = [l.strip()[:240] for l in out.splitlines() if l.startswith("  target=")][:3]
             res[c] = dict(cmd="./check %s%s" % (c, extra), exit=rc, violations=len(viol), first=first,
@@ -43,7 +43,7 @@ def main():
             print(c, rc, len(viol), first[:1])
     finally:
         sh("git -C /repo checkout -- .")
-        sh("git clean -fdq replay evidence; git checkout -q -- evidence replay", cwd=V)
+        sh("rm -rf /tmp/vs_out_%s" % seed)
     meta.setdefault("rechecks", []).append(res)
     caught = set(meta.get("caught_by", []))
     caught |= {c for c, r in res.items() if r["exit"] == 1 and r["violations"] > 0}
